@@ -508,6 +508,54 @@ def run_fixture2(rep, rng, quick):
             if not ok or mt.get("x") != wantt:
                 rep.violation("C07:qualified-name-after-remove-process", "after remove_process(%s) the query 'E<> %s.x >= 0' gives %s / member "
                               "type %s; %s.x is declared %s" % (victim, n, q["errors"], mt.get("x"), n, wantt), c)
+    # ---- parameter lists of rejected or broken declarations must not leak into the next function / template
+    LEFT = [("duplicate-dynamic", "int D; dynamic D(bool a);"), ("duplicate-dynamic-two", "int D; dynamic D(bool a, bool zz);"),
+            ("dynamic-bad-parameter-kind", "dynamic D2(clock &a);"), ("duplicate-function", "int dupf; void dupf(bool a) { }"),
+            ("broken-function-header", "int bf(bool a {"), ("function-with-broken-body", "void bf2(bool a) { if ( }"),
+            ("none", "")]
+    lcases = []
+    for lname, ltext in LEFT:
+        for follower in ("function", "template", "dynamic"):
+            if lname.startswith(("broken", "function-with-broken")) and follower != "template":
+                continue        # in the same block the text that follows a broken header is legitimately read as part of it
+            gd = "int[0,100] a; int r0; %s\n" % ltext
+            if follower == "function":
+                gd += "int f() { return a; }"
+                xml = xmlgen.simple_model(decl=gd)
+            elif follower == "template":
+                xml = xmlgen.simple_model(decl=gd, params="const int[0,5] tp", edges=[("id0", "id0", [("guard", "a >= tp")])], system="P1 = P(1);\nsystem P1;")
+            else:
+                gd += "dynamic E(int ep); int g() { return a; }"
+                xml = xmlgen.simple_model(decl=gd)
+            lcases.append((lname, follower, Case("lp%d" % len(lcases), [Step("parse_builder", 0, "xml_buffer", 1, "doc", 1, xml)], timeout=60)))
+    lres = run_cases([c for _, _, c in lcases])
+    for lname, follower, c in lcases:
+        r = lres[c.id]
+        if r["status"] != "ok":
+            rep.crash(r, c)
+            continue
+        sdoc = r["steps"][0]
+        if sdoc.get("exc"):
+            continue
+        rep.observe(("leftover-parameters", lname, follower))
+        d = sdoc["doc"]
+        import json as _json
+        txt = _json.dumps(d)
+        bound = re.findall(r"\(IDENTIFIER a@([^)]*)\)", txt)
+        bad = [b for b in bound if b != "global"]
+        if bad:
+            rep.violation("C07:leftover-parameter:%s:%s" % (lname.split("-")[0], follower), "after the declaration %r the use of a in the following %s is "
+                          "bound to %s; only the global a is in scope" % (dict(LEFT)[lname], follower, bad[0]), c)
+        if follower == "function":
+            fs = [f for f in d["globals"]["funcs"] if f["name"] == "f"]
+            if fs and fs[0].get("params") not in ([], None) and len(fs[0].get("params") or []) != 0:
+                rep.violation("C07:leftover-parameter:%s:function-signature" % lname.split("-")[0], "function f() declared without parameters has "
+                              "parameters %s after %r" % (fs[0].get("params"), dict(LEFT)[lname]), c)
+        if follower == "template":
+            ps = [p["name"] for t in d["templates"] if t["name"] == "P" for p in t["params"]]
+            if ps != ["tp"]:
+                rep.violation("C07:leftover-parameter:%s:template-signature" % lname.split("-")[0], "template P(tp) has parameters %s after %r" % (
+                    ps, dict(LEFT)[lname]), c)
     # ---- scopes after error recovery inside one template
     rcases = []
     for i in range(len(FAULTY)):
